@@ -424,7 +424,11 @@ func (fg *FunctionGenerator) GenerateCustom(ast parser2.AST, gc funcGen.Generato
 		}
 		l := tc.GetLine()
 		return func(st funcGen.Stack[Value], cs []Value) (Value, error) {
-			tryVal, tryErr := tryFunc(st, cs)
+			tryVal, tryErr := func() (val Value, err error) {
+				// a panic in the try expression is caught like a returned error
+				defer recoverAsError(&err)
+				return tryFunc(st, cs)
+			}()
 			if tryErr == nil {
 				return tryVal, nil
 			}
